@@ -257,3 +257,27 @@ Definition doc_attrs_not_blank (d : node) : Prop :=
 
 Definition sel_supported (d : node) (s : sel) : Prop :=
   everywhere has_args_compound s /\ (doc_attrs_not_blank d \/ everywhere substr_val_ok s).
+
+(* ------------------------------------------------------------------ pseudo-elements and :is() / :not() / :has()
+
+   Selectors 4, 4.2 "Pseudo-elements cannot be represented by the matches-any pseudo-class; they are not
+   valid within :is()", 4.3 (:not), 4.5 (:has): a selector list that is the argument of a relative
+   pseudo-class contains no pseudo-element, at any nesting depth. *)
+Fixpoint pe_free (s : sel) : bool :=
+  match s with
+  | SRel _ g => forallb pe_free g
+  | SCompound sels pe => match pe with [] => forallb pe_free sels | _ => false end
+  | SCombined a _ b => pe_free a && pe_free b
+  | _ => true
+  end.
+(* every argument of every relative pseudo-class occurring in s is free of pseudo-elements *)
+Fixpoint rel_args_pe_free (s : sel) : bool :=
+  match s with
+  | SRel _ g => forallb pe_free g
+  | SCompound sels _ => forallb rel_args_pe_free sels
+  | SCombined a _ b => rel_args_pe_free a && rel_args_pe_free b
+  | _ => true
+  end.
+
+(* a positional weight in base B: what Specificity.Less must NOT be (a column that reaches B carries) *)
+Definition packed_weight (B : Z) (x : spec3) : Z := ((sp_a x * B + sp_b x) * B + sp_c x)%Z.
